@@ -71,7 +71,9 @@ def run_family(ctx, steps):
                 tname = rng.choice(frames)
                 X = fam[tname]
                 op = rng.choice(["query", "eval", "eval_assign", "sort", "dropna", "add_nested", "reduce", "with_flat", "without",
-                                 "to_parquet", "to_flat", "from_flat", "pack", "setitem_series_new_nest", "nest_lists", "take"])
+                                 "to_parquet", "to_flat", "from_flat", "pack", "setitem_series_new_nest", "nest_lists", "take",
+                                 "take_all", "mask_all", "loc_all", "iloc_all", "query_base_all", "concat_with_empty",
+                                 "concat_empty_first", "reindex_same", "series_take_all", "series_concat_empty"])
                 desc.update(target=tname, op=op)
                 new = None
                 if op == "query":
@@ -107,6 +109,26 @@ def run_family(ctx, steps):
                     new = Y
                 elif op == "nest_lists":
                     new = X["n"].nest.to_lists()
+                elif op == "take_all":          # selections that keep every row, in order: still NEW objects
+                    new = X.take(list(range(len(X))))
+                elif op == "mask_all":
+                    new = X[np.ones(len(X), dtype=bool)]
+                elif op == "loc_all":
+                    new = X.loc[list(X.index)]
+                elif op == "iloc_all":
+                    new = X.iloc[list(range(len(X)))]
+                elif op == "query_base_all":
+                    new = X.query("x > -1000")
+                elif op == "concat_with_empty":
+                    new = pd.concat([X, X.iloc[0:0]])
+                elif op == "concat_empty_first":
+                    new = pd.concat([X[np.zeros(len(X), dtype=bool)], X])
+                elif op == "reindex_same":
+                    new = X.reindex(list(X.index))
+                elif op == "series_take_all":
+                    new = X["n"].take(list(range(len(X))))
+                elif op == "series_concat_empty":
+                    new = pd.concat([X["n"], X["n"].iloc[0:0]])
                 else:
                     new = X.take(list(range(len(X)))[::-1])
                 if new is not None and not isinstance(new, (int, float)):
